@@ -130,13 +130,14 @@ func textEq(a, b Text) (*T, bool) {
 		if !inAtomDomain(a.Frags[0].Atom, bs) {
 			return tFalse, true
 		}
-		return mkVar(fmt.Sprintf("eq!%s!%q", a.Frags[0].Atom, bs), SBool), true
+		// equal to a non-empty literal implies non-empty
+		return mkAnd(mkVar(fmt.Sprintf("eq!%s!%q", a.Frags[0].Atom, bs), SBool), mkNot(atomEmptyVar(a.Frags[0].Atom))), true
 	}
 	if len(b.Frags) == 1 && b.Frags[0].Kind == FAtom && aok {
 		if !inAtomDomain(b.Frags[0].Atom, as) {
 			return tFalse, true
 		}
-		return mkVar(fmt.Sprintf("eq!%s!%q", b.Frags[0].Atom, as), SBool), true
+		return mkAnd(mkVar(fmt.Sprintf("eq!%s!%q", b.Frags[0].Atom, as), SBool), mkNot(atomEmptyVar(b.Frags[0].Atom))), true
 	}
 	if len(a.Frags) == 1 && a.Frags[0].Kind == FAtom && len(b.Frags) == 1 && b.Frags[0].Kind == FAtom {
 		x, y := a.Frags[0].Atom, b.Frags[0].Atom
